@@ -490,6 +490,15 @@ def work(chunk):
     res = common.Result()
     worlds = {}
     for case in chunk:
+        if case.get("sizes"):
+            from . import c01
+
+            before = res["counters"].get("size_datagrams", 0)
+            c01.run_block(case, res)
+            n = res["counters"].get("size_datagrams", 0) - before
+            res.count("replies", n)
+            res.count("values", n)
+            continue
         if "rel" in case:
             exp, out = run_rel_case(case, worlds)
             res.count("api_calls", 2)
@@ -566,6 +575,10 @@ def _cls(t):
 
 
 def replay(case):
+    if case.get("replay_kind") == "datagram":
+        from . import c01
+
+        return c01.replay(case)
     common.prepare_stage()
     if "rel" in case:
         exp, out = run_rel_case(case, {})
@@ -577,6 +590,7 @@ def replay(case):
 def run(tier):
     common.prepare_stage()
     rec = common.Recorder(PROPERTY, tier, LEVEL, MODULE)
+    thorough = tier == "thorough"
     rec.rule = (
         "value model: every INTEGER of -32768..32767 (thorough: -2^23..2^23-1) plus the +-2 neighbourhood of every +-2^(8k-1), +-2^(8k); every unsigned 0..65535 and 2^24/2^31/2^32 (2^63/2^64) boundaries "
         "with and without an extra leading zero, for Counter32/Gauge32/TimeTicks/UInteger32/Counter64; strings of length 0,1,2,127,128,255,256,1000 x 3 patterns x 3 types; IpAddress, "
@@ -594,5 +608,15 @@ def run(tier):
     slow = [c for c in cases if c["driver"] != "split"]
     common.run_cases(rec, work, fast_cases, chunk=60)
     common.run_cases(rec, work, slow, chunk=12)
+    # one OCTET STRING reply of every datagram size up to the receive limit, per configuration: it must reach the caller intact
+    sizes = []
+    for cfg in [Cfg("v1"), Cfg("v2c")] + drivers.k7():
+        if cfg.version == "v3" and cfg.priv:
+            pl = sorted(set(list(range(0, 4100, 97 if not thorough else 13)) + [x + d for x in (0, 128, 256, 1024, 1900, 1960, 2048, 3900, 3960, 4000) for d in range(-4, 40)]))
+            pl = [x for x in pl if x >= 0]
+        else:
+            pl = list(range(0, 4100, 1 if thorough else 3))
+        sizes.append({"driver": "split", "cfg": cfg.describe(), "op": "get", "sizes": True, "judge_loss": True, "payloads": pl})
+    common.run_cases(rec, work, sizes, chunk=1)
     n = rec.counters["values"]
     return rec.finish(evaluations=n, distinct_nontrivial=rec.distinct_n, states=rec.counters["replies"], transitions=rec.counters["api_calls"], traces=rec.counters["replies"])
